@@ -174,6 +174,9 @@ pub fn render(g: &G, root: bool, out: &mut String) {
             out.push_str(name);
             if root {
                 out.push_str(" xmlns:p=\"urn:p\"");
+                if let Some(d) = doc_dns() {
+                    out.push_str(&format!(" xmlns=\"{}\"", d));
+                }
             } else if let Some(u) = ns {
                 out.push_str(&format!(" xmlns:p=\"{}\"", u));
             }
@@ -216,18 +219,22 @@ pub fn render(g: &G, root: bool, out: &mut String) {
 }
 
 /// `{namespace}local` of a name under the binding `cur` of the prefix `p` (the only prefix the generator uses)
-fn expand_name(name: &str, cur: Option<&str>) -> String {
+fn expand_name(name: &str, cur: Option<&str>, dns: Option<&str>) -> String {
     match name.strip_prefix("p:") {
         Some(l) => match cur {
             Some(u) => format!("{{{}}}{}", u, l),
             None => format!("{{!unbound}}{}", l),
         },
-        None => name.to_string(),
+        // an unprefixed element name is in the default namespace (attributes pass None)
+        None => match dns {
+            Some(d) => format!("{{{}}}{}", d, name),
+            None => name.to_string(),
+        },
     }
 }
 
 /// canonical content in the format of world::canon_doc_ns; `cur` is what the prefix `p` is bound to here
-pub fn canon_kids(kids: &[G], cur: Option<&str>, out: &mut String) {
+pub fn canon_kids(kids: &[G], cur: Option<&str>, dns: Option<&str>, out: &mut String) {
     let mut run: Option<String> = None;
     fn flush(run: &mut Option<String>, out: &mut String) {
         if let Some(r) = run.take() {
@@ -264,14 +271,14 @@ pub fn canon_kids(kids: &[G], cur: Option<&str>, out: &mut String) {
                     Some(u) => Some(u.as_str()),
                     None => cur,
                 };
-                out.push_str(&format!("E({:?}", expand_name(name, here)));
-                let mut a: Vec<(String, String)> = attrs.iter().map(|(k, v)| (expand_name(k, here), norm_attr(v))).collect();
+                out.push_str(&format!("E({:?}", expand_name(name, here, dns)));
+                let mut a: Vec<(String, String)> = attrs.iter().map(|(k, v)| (expand_name(k, here, None), norm_attr(v))).collect();
                 a.sort();
                 for (k, v) in a {
                     out.push_str(&format!(" {}={:?}", k, v));
                 }
                 out.push('[');
-                canon_kids(kids, here, out);
+                canon_kids(kids, here, dns, out);
                 out.push_str("])");
             }
         }
@@ -337,6 +344,10 @@ fn named_paths_ns(g: &G, name: &str, want_uri: Option<&str>, cur_p: &str, path: 
 }
 
 fn named_paths(g: &G, name: &str, path: &mut Vec<usize>, out: &mut Vec<Vec<usize>>) {
+    if !name.contains(':') && !PLAIN_MATCH.with(|c| *c.borrow()) {
+        // the elements are in a default namespace the caller did not bind: a plain name test is in no namespace
+        return;
+    }
     let want = if name.contains(':') { Some(CALLER_URI.with(|c| c.borrow().clone())) } else { None };
     named_paths_ns(g, name, want.as_deref(), "urn:p", path, out);
 }
@@ -344,6 +355,14 @@ fn named_paths(g: &G, name: &str, path: &mut Vec<usize>, out: &mut Vec<Vec<usize
 thread_local! {
     /// the URI the caller binds its prefix to in the case being generated
     static CALLER_URI: std::cell::RefCell<String> = std::cell::RefCell::new("urn:p".to_string());
+    /// whether an unprefixed name test of the caller reaches the document's unprefixed elements
+    static PLAIN_MATCH: std::cell::RefCell<bool> = std::cell::RefCell::new(true);
+    /// the default namespace the document element of the case being generated declares (if any)
+    static DOC_DNS: std::cell::RefCell<Option<String>> = std::cell::RefCell::new(None);
+}
+
+fn doc_dns() -> Option<String> {
+    DOC_DNS.with(|c| c.borrow().clone())
 }
 
 fn get<'x>(root: &'x G, path: &[usize]) -> Option<&'x G> {
@@ -476,7 +495,8 @@ pub struct Case {
 
 impl Case {
     pub fn to_line(&self) -> String {
-        let argv: Vec<String> = self.argv.iter().map(|a| enc(a)).collect();
+        // arguments are joined by ',': a comma inside one is written as %2C
+        let argv: Vec<String> = self.argv.iter().map(|a| enc(a).replace(',', "%2C")).collect();
         format!(
             "case id={} tool={} argv={} doc={} kind={} expect={} gate={} sel={} what={}",
             self.id,
@@ -571,6 +591,13 @@ fn serialise_document(doc_text: &str, indent: bool) -> Option<String> {
 pub fn gen_case(seed: u64, id: u64) -> Case {
     let mut rng = Rng::new(crate::rng::mix(seed ^ 0xC17, id));
     let budget = rng.range(2, 30);
+    // a quarter of the documents put their unprefixed elements into a default namespace
+    let dns: Option<&'static str> = if rng.pct(25) { Some("urn:d") } else { None };
+    DOC_DNS.with(|c| *c.borrow_mut() = dns.map(String::from));
+    // how the caller addresses them: 0,1 `--setns xmlns=urn:d` and plain names; 2,3 `--setns xmlns:n=urn:d` and
+    // `n:name`; 4 no binding (plain names then match nothing)
+    let dmode = if dns.is_some() { rng.below(5) } else { 9 };
+    let plain_names_match = dns.is_none() || dmode < 4;
     let gen_doc = |rng: &mut Rng, budget: usize| -> (Vec<G>, G, Vec<G>, String) {
         let (pre, root, post, decl) = {
             let mut g = CliGen { rng, budget, rich: true, ents: false };
@@ -628,10 +655,13 @@ pub fn gen_case(seed: u64, id: u64) -> Case {
     let qname_for = |n: &str, caller_p: &str| -> String {
         if let Some(l) = n.strip_prefix("p:") {
             format!("{}:{}", caller_p, l)
+        } else if dns.is_some() && (dmode == 2 || dmode == 3) {
+            format!("n:{}", n)
         } else {
             n.to_string()
         }
     };
+    PLAIN_MATCH.with(|c| *c.borrow_mut() = plain_names_match);
     match sel {
         0 | 1 | 2 => {
             let ep = random_elem_path(&mut rng, &root);
@@ -719,8 +749,47 @@ pub fn gen_case(seed: u64, id: u64) -> Case {
     // axes that leave the tree at the root, the parent of an attribute
     let mut special_fail = false;
     let mut doc_target = false;
-    if sibling_family || rng.pct(10) {
-        match if sibling_family { 4 } else { rng.below(4) } {
+    if sibling_family || rng.pct(12) {
+        match if sibling_family { 4 } else { [0usize, 1, 2, 3, 6][rng.below(5)] } {
+            6 => {
+                // string functions at the edges of their argument ranges (xq prints the scalar; for xe a scalar is unusable)
+                let s = rng.ps(&["abc", "12345", "aéb𝒳z", ""]).to_string();
+                let nums = ["0", "1", "2", "-1", "9", "1.5", "2.5", "0.5", "-0.5", "3", "100", "0 div 0", "1 div 0", "-1 div 0"];
+                let val = |t: &str| -> f64 {
+                    match t {
+                        "0 div 0" => f64::NAN,
+                        "1 div 0" => f64::INFINITY,
+                        "-1 div 0" => f64::NEG_INFINITY,
+                        v => v.parse().unwrap(),
+                    }
+                };
+                let a = rng.ps(&nums).to_string();
+                let b = if rng.pct(60) { Some(rng.ps(&nums).to_string()) } else { None };
+                // XPath 1.0 section 4.2: positions p (from 1) with round(a) <= p < round(a) + round(b)
+                let round = |v: f64| (v + 0.5).floor();
+                let start = round(val(&a));
+                let end = b.as_ref().map(|b| start + round(val(b)));
+                let r: String = s
+                    .chars()
+                    .enumerate()
+                    .filter(|(i, _)| {
+                        let p = (*i + 1) as f64;
+                        p >= start && end.map(|e| p < e).unwrap_or(true)
+                    })
+                    .map(|(_, c)| c)
+                    .collect();
+                expr = match &b {
+                    Some(b) => format!("substring('{}', {}, {})", s, a, b),
+                    None => format!("substring('{}', {})", s, a),
+                };
+                paths.clear();
+                attr = None;
+                text_runs = false;
+                need_ns = false;
+                scalar = Some(r);
+                special_fail = tool == "xe";
+                what = "substring() at the edges".into();
+            }
             4 | 5 => {
                 // one step along an axis from a single node obtained by a filter expression:
                 // node-sets come back in document order whatever the direction of the axis
@@ -840,7 +909,7 @@ pub fn gen_case(seed: u64, id: u64) -> Case {
             _ => {
                 let name = rng.ps(&["a", "b", "c"]).to_string();
                 let a = rng.ps(ATTRS).to_string();
-                expr = format!("//{}/@{}/..", name, a);
+                expr = format!("//{}/@{}/..", qname_for(&name, caller_p), a);
                 paths.clear();
                 let mut all = vec![];
                 named_paths(&root, &name, &mut vec![], &mut all);
@@ -918,9 +987,31 @@ pub fn gen_case(seed: u64, id: u64) -> Case {
         }
     }
 
+    // the caller's binding for the document's default namespace (harmless where no plain name is used)
+    match (dns, dmode) {
+        (Some(d), 0) | (Some(d), 1) => {
+            argv.push("--setns".into());
+            argv.push(format!("xmlns={}", d));
+        }
+        (Some(d), 2) | (Some(d), 3) => {
+            argv.push("--setns".into());
+            argv.push(format!("xmlns:n={}", d));
+        }
+        _ => {}
+    }
     if need_ns {
+        // the same prefix bound twice: the later binding counts
+        if rng.pct(20) {
+            argv.push("--setns".into());
+            argv.push(format!("xmlns:{}={}", caller_p, rng.ps(&["urn:first", "urn:p2", "urn:p"])));
+        }
         argv.push("--setns".into());
         argv.push(format!("xmlns:{}={}", caller_p, caller_uri));
+        // and a binding nobody uses
+        if rng.pct(15) {
+            argv.push("--setns".into());
+            argv.push("xmlns:unused=urn:unused".into());
+        }
     }
     let use_file = rng.pct(40);
     if use_file {
@@ -1025,7 +1116,7 @@ pub fn gen_case(seed: u64, id: u64) -> Case {
             expect_kind = "any".into();
         } else if els == 1 && only_doc_level {
             let mut c = String::new();
-            canon_kids(&vkids, None, &mut c);
+            canon_kids(&vkids, None, None, &mut c);
             expect_kind = if indent { "canonws".into() } else { "canon".into() };
             expect = c;
         } else if !only_doc_level {
@@ -1054,7 +1145,10 @@ pub fn gen_case(seed: u64, id: u64) -> Case {
                                 // xq prints a node's own markup, without the declarations it inherits: the
                                 // printed text is read under the binding the wrapper gives (urn:p), whatever
                                 // the node's context was; re-declarations inside the subtree are printed
-                                canon_kids(std::slice::from_ref(g), Some("urn:p"), &mut c);
+                                // (the default namespace is declared on the document element only: a selected
+                                // inner element is printed without it)
+                                let dns = if p.is_empty() { doc_dns() } else { None };
+                                canon_kids(std::slice::from_ref(g), Some("urn:p"), dns.as_deref(), &mut c);
                                 c.push_str("T(\"\\n\")");
                             }
                         }
@@ -1167,7 +1261,7 @@ fn canon_of(pre: &[G], root: &G, post: &[G]) -> String {
     });
     all.extend_from_slice(post);
     let mut s = String::new();
-    canon_kids(&all, Some("urn:p"), &mut s);
+    canon_kids(&all, Some("urn:p"), doc_dns().as_deref(), &mut s);
     s
 }
 
